@@ -87,10 +87,14 @@ def gen_values(rng, n, style):
         return [rng.choice(["inf", "-inf", "0", "1", "2", "inf", str(rng.randrange(-4, 5))]) for _ in range(n)]
     if style == "mixed":
         return [(rng.choice(["inf", "-inf"]) if rng.random() < 0.12 else str(rng.randrange(-6, 7))) for _ in range(n)]
+    if style == "wide":
+        # values that need more than the 24 significant bits of a float (exact in double): a narrowing inside the module merges
+        # distinct values; the property is invariant under translation of the values
+        return [(rng.choice(["inf", "-inf"]) if rng.random() < 0.08 else str((1 << 26) + rng.randrange(-6, 7))) for _ in range(n)]
     raise ValueError(style)
 
 
-STYLES = ["mixed", "ties", "distinct", "inf", "const", "mixed"]
+STYLES = ["mixed", "ties", "distinct", "inf", "const", "mixed", "wide"]
 
 
 def ops_for(case, rng, full=True):
